@@ -41,6 +41,8 @@ def parse(data, layout="BME"):
         m = DATA_RE.match(l)
         if m:
             meas, ch, d = int(m.group(1)), m.group(2).upper(), m.group(3).strip()
+            if ch == "02":
+                continue  # handled below (decimal measure length)
             if len(d) == 0 or len(d) % 2 or not B36.match(d):
                 syntax.append(f"line {ln}: data field is not a non-empty even run of base-36 digits: {l[:40]!r}")
                 continue
@@ -68,6 +70,25 @@ def parse(data, layout="BME"):
         bpm0 = F(130)
     else:
         bpm0 = F(header["BPM"])
+    # channel 02: the measure's length as a multiple of 4 beats (one measure only); the data field is a decimal number
+    mlen = {}
+    for ln, l in enumerate(lines):
+        m2 = re.match(r"^#(\d{3})02:(\S+)$", l)
+        if m2:
+            try:
+                mlen[int(m2.group(1))] = F(m2.group(2))
+            except Exception:
+                syntax.append(f"line {ln}: bad channel-02 value {l[:30]!r}")
+    events = [e for e in events if e[2] != "02"]
+
+    def mstart(meas):
+        """Start of measure `meas` in units of 4-beat measures."""
+        return sum((mlen.get(k, F(1)) for k in range(meas)), F(0))
+
+    def absolute(meas, pos):
+        return mstart(meas) + pos * mlen.get(meas, F(1))
+
+    events = [(absolute(meas, pos), F(0), ch, v) for meas, pos, ch, v in events]
     tch = []
     for meas, pos, ch, v in events:
         if ch == "03":
@@ -77,8 +98,6 @@ def parse(data, layout="BME"):
                 syntax.append(f"channel 08 refers to undefined #BPM{v}")
                 continue
             tch.append((meas + pos, exbpm[v.upper()]))
-        elif ch == "02":
-            raise AssertionError("time signatures are outside the reference")
     tch.sort(key=lambda x: x[0])
     segs = [(F(0), F(0), bpm0)]
     for pos, b in tch:
